@@ -563,6 +563,8 @@ func (e *Exec) step(op Op) {
 		e.snapClose(op.N)
 	case "iterProg":
 		e.iterProg(op)
+	case "snapIter":
+		e.snapIter(op)
 	case "previous":
 		e.doPrevious(op)
 	case "revert":
